@@ -11,6 +11,7 @@ package rep
 //@   lock Mutex level 20
 //@   guarded_by Mutex: closed ttl sendQLen contexts
 //@   immutable: master recvQ
+//@   elem_invariant recvQ: !shared(elem.m) && elem.m != nil && elem.p != nil
 //@
 //@ struct context
 //@   guarded_by s.Mutex: closed recvWait recvExpire recvPipe sendExpire bestEffort backtrace
